@@ -273,7 +273,7 @@ class EvalMixin:
         locs = getattr(self, "_fn_locals", None)
         if locs is None and getattr(self, "fn", None) is not None:
             locs = self._fn_locals = {x.id for x in ast.walk(self.fn) if isinstance(x, ast.Name) and isinstance(x.ctx, ast.Store)}
-        if locs and n in locs and not cx.spec:
+        if locs and n in locs:
             # a local of the function that no statement on THIS path has bound: CPython raises UnboundLocalError (implicit
             # exceptions are not checked); modelled as an arbitrary value of its declared kind
             k_ = getattr(self, "decl_kinds", {}).get(n, ANY)
